@@ -657,7 +657,9 @@ func simpleCase(c *core.Ctx, v cty.Value, desc func() string) {
 // simpleDiff compares the original with its type-lossy image: lists, sets and
 // tuples come back as tuples, maps and objects as objects, nulls as nulls of
 // the dynamic pseudo-type, primitives unchanged.
-func simpleDiff(a, b cty.Value, path string) (string, string) { return simpleDiffImg(a, b, path, false) }
+func simpleDiff(a, b cty.Value, path string) (string, string) {
+	return simpleDiffImg(a, b, path, false)
+}
 
 // simpleDiffImg with img set compares every whole number of a through its
 // shortest-text image (used only to recognise F-32's class).
